@@ -29,6 +29,8 @@ C = {
          "TLA+ Script VM as reference executor vs. real Interpreter on mutated witnesses (Trace_Interp)"),
  "C14": ("psbt-pipeline", "model_checking", "Psbt.tla (state machine of update/add/finalize/finalize-input/extract on a multi-input PSBT) is model-checked exhaustively for its C14 invariants, and TLC-generated operation histories (all permutations of preparation subsets, repeated/failing finalisations) are replayed into real PSBTs with real signatures; the projected state after every step is trace-validated against the model's actions: validity of final witnesses (TLA+ VM), stability, failure atomicity, idempotence, order independence (memo), extract consistency, update consistency", "5/C14",
          "TLA+ state machine Psbt.tla model-checked (MC_Psbt) + trace validation of real PSBT histories (Trace_Psbt, chain shape)"),
+ "C15": ("tap-pipeline", "model_checking", "for all tree shapes up to the leaf bound (+ repeated-script variants, degenerate chains up to depth 129) the real library's merkle root, output key, control blocks, leaf order and depths are compared with the BIP341 commitment algebra of Taproot.tla (canonical unordered-pair terms), through parse / print / translate / combine / spend-info iteration", "5/C15",
+         "TLA+ BIP341 term algebra (Taproot.tla) vs. real TrSpendInfo / TapTree, hashes named by alpha (Trace_Tap)"),
  "C17": ("plan-pipeline", "model_checking", "plans from real Assets vs. the equivalent satisfier (existence equivalence, byte-identical completion) and necessity/sufficiency of reported locks by re-completing the plan in transactions with exact / weaker locks and validating each in the TLA+ VM; bounded-exhaustive over ASTs x wrappers x worlds x 2 modes", "5/C17",
          "TLA+ VerifyInput on plan completions under exact and weakened lock environments (Trace_Plan)"),
  "C18": ("policy-pipeline", "model_checking", "normalized/sorted/at_age/at_lock_time/entails/minimum_n_keys/n_keys/Concrete::lift/check_timelocks of the real library on an exhaustively enumerated policy domain, each answer judged by TLC against atom truth tables (all assignments) of PolicyAtoms.tla; entails on all ordered pairs of the small set", "5/C18",
@@ -37,6 +39,7 @@ C = {
          "structural identity of abstract ASTs (TLA+ Gen_Pairs) vs. library Eq/Ord/Hash matrix (Trace_Eq)"),
 }
 ENG = {
+ "tap-pipeline": ("bin/check (run_tap)", "TLC Gen_Tap -> msverif tap -> TLC Trace_Tap"),
  "psbt-pipeline": ("bin/check (run_psbt)", "TLC MC_Psbt + TLC Gen_Psbt -> msverif psbt (real PSBT replay) -> TLC Trace_Psbt"),
  "policy-pipeline": ("bin/check (run_policy)", "TLC Gen_Policy -> msverif policy -> TLC Trace_Policy"),
  "nonmall-pipeline": ("bin/check (run_nonmall)", "TLC Gen_Sat -> msverif sat -> TLC Trace_NonMall"),
